@@ -76,6 +76,59 @@ KB = {  # fixture driverB_dependencies (test_scheduler_graph_multiple_combined),
     'ext_driver_mod#ext_driver': ('ext_kernel_mod', 'ext_kernel_mod#ext_kernel'), 'ext_kernel_mod': (),
     'ext_kernel_mod#ext_kernel': ()}
 
+# loki/batch/tests/test_scheduler_dependencies.py::test_scheduler_interface_dependencies (sources inline in the test)
+INTF_MOD = """
+module test_scheduler_interface_dependencies_mod
+    implicit none
+    interface my_intf
+        procedure proc1
+        procedure proc2
+    end interface my_intf
+contains
+    subroutine proc1(arg)
+        integer, intent(inout) :: arg
+        arg = arg + 1
+    end subroutine proc1
+    subroutine proc2(arg)
+        real, intent(inout) :: arg
+        arg = arg + 1.0
+    end subroutine proc2
+end module test_scheduler_interface_dependencies_mod
+"""
+INTF_DRIVER = """
+subroutine test_scheduler_interface_dependencies_driver
+    use test_scheduler_interface_dependencies_mod, only: my_intf
+    implicit none
+    integer i
+    real a
+    i = 0
+    a = 0.0
+    call my_intf(i)
+    call my_intf(a)
+end subroutine test_scheduler_interface_dependencies_driver
+"""
+_IM, _ID = 'test_scheduler_interface_dependencies_mod', 'test_scheduler_interface_dependencies_driver'
+INTF_EXPECTED = {f'#{_ID}': (f'{_IM}#my_intf',), f'{_IM}#my_intf': (f'{_IM}#proc1', f'{_IM}#proc2'),
+                 f'{_IM}#proc1': (), f'{_IM}#proc2': ()}
+
+
+def intf_corpus(ctx):
+    """(project, paths, search paths, entries) of the interface test of the repository."""
+    d = os.path.join(ctx.work, 'corpus_intf')
+    os.makedirs(d, exist_ok=True)
+    paths = {'imod': os.path.join(d, f'{_IM}.F90'), 'idrv': os.path.join(d, f'{_ID}.F90')}
+    with open(paths['imod'], 'w') as fh:
+        fh.write(INTF_MOD)
+    with open(paths['idrv'], 'w') as fh:
+        fh.write(INTF_DRIVER)
+    proj = L.normalize_project({
+        'mods': [{'name': _IM, 'file': 'imod', 'imports': [], 'vars': [], 'ifaces': [{'name': 'my_intf', 'procs': ['proc1', 'proc2']}]}],
+        'procs': [{'name': 'proc1', 'mod': _IM, 'imports': [], 'calls': []}, {'name': 'proc2', 'mod': _IM, 'imports': [], 'calls': []},
+                  {'name': _ID, 'mod': '', 'file': 'idrv', 'imports': [{'mod': _IM, 'only': ['my_intf']}], 'calls': ['my_intf']}]})
+    cfg = L.make_config([_ID], disable=['abort'], routines=[L.routine_entry(_ID, role='driver')])
+    return proj, paths, [d], [('interface_dependencies', cfg, INTF_EXPECTED, ())]
+
+
 CORPUS = [
     # (name, config, expected {item: children}, expected ignored items)
     ('graph_simple/kernelA', L.make_config(['kernela'], disable=['abort']), KA, ()),
@@ -157,9 +210,10 @@ def signature(project, config):
         for q in P['procs'][i + 1:]:
             if p['name'] == q['name']:
                 dup = 'file' if p['file'] == q['file'] else (dup if dup == 'file' else 'scope')
+    ifc = int(any(m.get('ifaces') for m in P['mods']))
     seeds = ''.join('q' if s['q'] else 'p' for s in C['seeds'])
     return (f"np={len(P['procs'])}:nm={len(P['mods'])}:free={sum(1 for p in P['procs'] if not p['mod'])}:"
-            f"imp={'+'.join(sorted(styles)) or 'none'}:self={selfrec}:dup={dup}:seeds={seeds}:cfg={','.join(sorted(cfg)) or 'none'}")
+            f"imp={'+'.join(sorted(styles)) or 'none'}:self={selfrec}:dup={dup}:ifc={ifc}:seeds={seeds}:cfg={','.join(sorted(cfg)) or 'none'}")
 
 
 def reductions(project, config):
@@ -372,31 +426,34 @@ def run(ctx):
         add(L.normalize_project(c['P']), L.normalize_config(c['C']), c['fp'], c['ei'], c.get('layout', 0), c.get('plain', False), 'replay')
     else:
         # ---- 2. validation corpus: the repository's own projects and hand-written expectations
-        cproj = corpus_project()
         cpaths, search = corpus_paths()
-        for name, cfg, expected, ignored in CORPUS:
-            # (a) the hand-written expectation of the repository test, fed to TLC as if it had been observed:
-            #     the specification must accept it (otherwise the spec is wrong: machinery error)
-            items = [{'name': n, 'kind': 'proc' if '#' in n else 'mod', 'ignored': n in ignored,
-                      'file': next(p_['file'] for p_ in cproj['procs'] if L.full_name(p_) == n) if '#' in n
-                      else next(m_['file'] for m_ in cproj['mods'] if m_['name'] == n)} for n in expected]
-            edges = [[a, b] for a, bs in expected.items() for b in bs]
-            runs.append(({'P': cproj, 'C': cfg, 'fp': True, 'ei': True, 'layout': 0, 'plain': True, 'origin': f'corpus-expectation:{name}'},
-                         {'P': L.tla_project(cproj), 'C': cfg, 'obs': {'items': items, 'edges': edges, 'raised': ''}}))
-            # (b) the real scheduler on the repository's files
-            for fp in (False, True):
-                add(cproj, cfg, fp, True, 0, True, f'corpus:{name}', paths=cpaths, search=search)
+        for cproj, cpaths, search, entries in [(corpus_project(), cpaths, search, CORPUS), intf_corpus(ctx)]:
+            kinds = {L.full_name(p_): ('proc', p_['file']) for p_ in cproj['procs']}
+            for m_ in cproj['mods']:
+                kinds[m_['name']] = ('mod', m_['file'])
+                for i_ in m_['ifaces']:
+                    kinds[f"{m_['name']}#{i_['name']}"] = ('intf', m_['file'])
+            for name, cfg, expected, ignored in entries:
+                # (a) the hand-written expectation of the repository test, fed to TLC as if it had been observed:
+                #     the specification must accept it (otherwise the spec is wrong: machinery error)
+                items = [{'name': n, 'kind': kinds[n][0], 'ignored': n in ignored, 'file': kinds[n][1]} for n in expected]
+                edges = [[a, b] for a, bs in expected.items() for b in bs]
+                runs.append(({'P': cproj, 'C': cfg, 'fp': True, 'ei': True, 'layout': 0, 'plain': True, 'origin': f'corpus-expectation:{name}'},
+                             {'P': L.tla_project(cproj), 'C': cfg, 'obs': {'items': items, 'edges': edges, 'raised': ''}}))
+                # (b) the real scheduler on the repository's files
+                for fp in (False, True):
+                    add(cproj, cfg, fp, True, 0, True, f'corpus:{name}', paths=cpaths, search=search)
         ncorpus = len(runs)
         # ---- 3. TLC-enumerated small projects x config lattice
         small = []
         for np_, n in ((3, 40 if quick else 300), (4, 60 if quick else 700)):
-            small += L.gen_small(ctx, n, np_)
+            small += L.gen_small(ctx, n, np_, ifaces=True)
         for i, c in enumerate(small):
             P, C = L.normalize_project(c['P']), L.normalize_config(c['C'])
             for fp in (False, True):
                 add(P, C, fp, (i + int(fp)) % 3 != 0, ctx.seed * 7919 + i, plain=(i % 5 == 0), origin=f'tlc:so={c["so"]}:po={c["po"]}:st={c["st"]}')
         # ---- 4. seeded larger projects
-        legal, yield_ = L.seeded_pairs(ctx, 50 if quick else 600)
+        legal, yield_ = L.seeded_pairs(ctx, 50 if quick else 600, ifaces=True)
         ctx.cover['seeded_candidates_legal'] = yield_
         for i, (P, C) in enumerate(legal):
             for fp in (False, True):
@@ -449,6 +506,7 @@ def run(ctx):
         'ignore with plain, scoped, module-name, variable-name and fnmatch (*,?) keys',
         'not modelled / never generated: derived types, type-bound procedures, interfaces, functions and inline calls, internal '
         'procedures, renamed imports, missing (external) modules or procedures, mutual recursion, strict=false, ambiguous seeds, '
+        'interfaces other than generic module interfaces referenced through USE..ONLY in the caller, '
         'two routine entries selecting one item',
         'inputs must have an acyclic item graph, file graph and module USE graph (the scheduler sorts topologically)',
         'is_ignored: any value justified by some parent (seeds: false) is accepted where parents disagree (undocumented)',
